@@ -67,7 +67,7 @@ func runC08(p *core.Program, r *core.Report) {
 	})
 	// a library-made separator function reports 0 instead of its recipe's entropy on the call in which its generation
 	// gives up; how rare that is (and so "identical on every call") is set by the shipped thresholds (= C16 R16.4)
-	borrowSelected(p, r, runC16, "R8.3", func(o core.Obligation) bool { return o.Rule == "R16.4" })
+	borrowSelected(p, r, runC16, "R8.3", func(o core.Obligation) bool { return o.Rule == "R16.4" || o.Rule == "R16.6" && mentionsVar(o.Construct, "MaxTrials", "MaxFailRate") })
 	// the separator term is taken iff SeparatorFunc != nil: Generate must use the function under exactly that condition (= C04 R4.3 re-run)
 	if g, why := resolveWLGen(p); g == nil {
 		r.Unrecognised("R8.3", "(spg.WLRecipe).Generate", "generation shape", "", why)
